@@ -386,6 +386,8 @@ Proof.
   - (* box_iter *) dBox Hg. fin1 Hg. cbn. reflexivity.
   - (* unbox *) dBox Hg. fin1 Hg. cbn. reflexivity.
   - (* observe *) destruct (get p i) as [ob|] eqn:Hg; [|apply invalid_conserves]. cbn. reflexivity.
+  - (* try_collect *) dVec Hg. destruct (n =? length l); fin1 Hg; cbn; reflexivity.
+  - (* try_collect_boxed *) dVec Hg. destruct (n =? length l); fin1 Hg; cbn; reflexivity.
 Qed.
 
 (* ---------- iterators in the pool keep their invariant ---------- *)
